@@ -35,6 +35,20 @@ theorem idxOf_map_inj {α β : Type} [BEq α] [LawfulBEq α] [BEq β] [LawfulBEq
         exact fun e => h (hf _ _ e)
       rw [h1, h2, ih]
 
+theorem find?_congr_mem {α : Type} (p q : α → Bool) : ∀ (l : List α), (∀ e ∈ l, p e = q e) → l.find? p = l.find? q := by
+  intro l
+  induction l with
+  | nil => intro _; rfl
+  | cons a l ih =>
+    intro h
+    simp only [List.find?_cons, h a (List.mem_cons_self ..)]
+    rw [ih (fun e he => h e (List.mem_cons_of_mem _ he))]
+
+theorem env_ext (e1 e2 : Env) (h1 : e1.formula = e2.formula) (h2 : e1.cached = e2.cached)
+    (h3 : e1.allowNone = e2.allowNone) (h4 : e1.refs = e2.refs) (h5 : e1.maxdepth = e2.maxdepth)
+    (h6 : e1.observers = e2.observers) (h7 : e1.alive = e2.alive) (h8 : e1.siblings = e2.siblings) : e1 = e2 := by
+  cases e1; cases e2; simp_all
+
 section tabs
 variable (ρ : Path → Path) (hρ : ∀ x y, ρ x = ρ y → x = y)
 include hρ
@@ -65,5 +79,249 @@ theorem refOf_mapPaths (t : Tabs) (r : RefId) :
   simp
 
 end tabs
+
+/-! ### a relabelling that structure and tables both follow leaves the definitions as they are -/
+
+/-- `st'` is `st` with every path relabelled by the injective `ρ`, as far as the value layer looks -/
+structure Relab (ρ : Path → Path) (t : Tabs) (st st' : SM.St) : Prop where
+  inj : ∀ x y, ρ x = ρ y → x = y
+  conts : ∀ a q, conts st' a (ρ q) = conts st a q
+  glob : st'.globals = st.globals
+  has : ∀ q, st'.has (ρ q) = st.has q
+  plain : ∀ q x, nsPlain (t.mapPaths ρ) st' (ρ q) x = nsPlain t st q x
+  slots : ∀ e ∈ t.slots, ρ e.1 = e.1
+
+section relab
+variable {ρ : Path → Path} {t : Tabs} {st st' : SM.St} (h : Relab ρ t st st')
+include h
+
+theorem Relab.mem (a : Attr) (q : Path) (n : String) : st'.mem a (ρ q) n = st.mem a q n := by
+  rw [mem_conts, mem_conts, h.conts]
+
+theorem Relab.cellInfo (c : CellId) :
+    cellInfo (t.mapPaths ρ) st' c = (cellInfo t st c).map (fun i => (ρ i.1, i.2.1, i.2.2)) := by
+  unfold Edit.cellInfo
+  rw [cellOf_mapPaths]
+  cases hd : t.cellOf c with
+  | none => rfl
+  | some e =>
+    obtain ⟨q, x⟩ := e
+    simp only [Option.map_some, cid_mapPaths ρ h.inj, h.mem]
+    split
+    · cases st.mem .cells q x <;> rfl
+    · rfl
+
+theorem Relab.slots_eq : (t.mapPaths ρ).slots = t.slots := by
+  show mapFst ρ t.slots = t.slots
+  unfold mapFst
+  conv => rhs; rw [← List.map_id t.slots]
+  apply List.map_congr_left
+  intro e he
+  rw [h.slots e he]; rfl
+
+theorem Relab.qualOf (q : Path) (x : String) : qualOf (t.mapPaths ρ) (ρ q) x = qualOf t q x := by
+  unfold Edit.qualOf
+  rw [h.slots_eq]
+  apply find?_congr_mem
+  intro e he
+  unfold spelled
+  have : (e.1 == ρ q) = (e.1 == q) := by
+    by_cases hq : e.1 = q
+    · subst hq; rw [h.slots e he]
+    · have h1 : (e.1 == q) = false := by simpa using hq
+      rw [h1]
+      simp only [beq_eq_false_iff_ne, ne_eq]
+      intro e2
+      rw [← h.slots e he] at e2
+      exact hq (h.inj _ _ e2)
+  rw [this]
+
+theorem Relab.nsAt (q : Path) : nsAt (t.mapPaths ρ) st' (ρ q) = nsAt t st q := by
+  funext x
+  unfold Edit.nsAt
+  rw [h.qualOf]
+  cases hq : Edit.qualOf t q x with
+  | none => exact h.plain q x
+  | some e =>
+    simp only [slotBinding]
+    have he : e ∈ t.slots := List.mem_of_find?_eq_some hq
+    have := rid_mapPaths ρ h.inj t e.1 e.2
+    rw [h.slots e he] at this
+    rw [this]
+
+theorem Relab.refPay (q : Path) (x : String) : refPay (t.mapPaths ρ) st' (ρ q) x = refPay t st q x := by
+  unfold Edit.refPay
+  rw [h.mem, h.mem, h.has]
+  have : gpay (t.mapPaths ρ) st' x = gpay t st x := by
+    unfold gpay; rw [h.glob]; rfl
+  rw [this]
+
+theorem Relab.cellsOf (q : Path) : cellsOf (t.mapPaths ρ) st' (ρ q) = cellsOf t st q := by
+  unfold Edit.cellsOf
+  rw [h.conts]
+  apply List.map_congr_left
+  intro e _
+  exact cid_mapPaths ρ h.inj t q e.1
+
+/-- **the definitions the executor sees are the same after the relabelling** -/
+theorem envOf_relabel (P : Params) : envOf P (t.mapPaths ρ) st' = envOf P t st := by
+  apply env_ext
+  · funext n
+    simp only [envOf]
+    rw [h.cellInfo]
+    cases Edit.cellInfo t st n.1 with
+    | none => rfl
+    | some i => obtain ⟨q, x, m⟩ := i; simp only [Option.map_some, h.nsAt]
+  · funext c; simp only [envOf]; rw [h.cellInfo]; cases Edit.cellInfo t st c <;> rfl
+  · funext c; simp only [envOf]; rw [h.cellInfo]; cases Edit.cellInfo t st c <;> rfl
+  · funext r
+    simp only [envOf]
+    rw [refOf_mapPaths]
+    cases t.refOf r with
+    | none => rfl
+    | some e => simp only [Option.map_some, h.refPay, rid_mapPaths ρ h.inj]
+  · rfl
+  · funext r
+    simp only [envOf]
+    rw [refOf_mapPaths]
+    cases t.refOf r with
+    | none => rfl
+    | some e => simp only [Option.map_some, h.cellsOf]
+  · funext c; simp only [envOf]; rw [h.cellInfo]; cases Edit.cellInfo t st c <;> rfl
+  · funext c
+    simp only [envOf]
+    rw [cellOf_mapPaths]
+    cases t.cellOf c with
+    | none => rfl
+    | some e => simp only [Option.map_some, h.cellsOf]
+
+end relab
+
+/-! ### an accepted rename is such a relabelling -/
+
+theorem renameMap_snoc (parent : Path) (old new : String) :
+    renameMap (parent ++ [old]) new = SM.swapAt parent old new := by
+  funext q
+  unfold renameMap
+  rw [swapAt_eq]
+  simp
+
+theorem childNames_swap (st : SM.St) (parent : Path) (old new : String) (q : Path) (x : String) :
+    x ∈ (st.mapPaths (SM.swapAt parent old new)).childNames (SM.swapAt parent old new q) ↔
+      (if q = parent then SM.swapName old new x else x) ∈ st.childNames q := by
+  rw [mem_childNames, mem_childNames]
+  have := swapAt_snoc parent old new q (if q = parent then SM.swapName old new x else x)
+  have hx : (if q = parent then SM.swapName old new (if q = parent then SM.swapName old new x else x)
+      else (if q = parent then SM.swapName old new x else x)) = x := by
+    by_cases hq : q = parent
+    · simp only [hq, if_true, swapName_invol]
+    · simp only [hq, if_false]
+  rw [hx] at this
+  rw [← this]
+  exact mem_ids_mapPaths_image _ st (swapAt_inj parent old new) _
+
+theorem contains_iff_of_mem_iff {l l' : List String} {x y : String} (h : x ∈ l ↔ y ∈ l') :
+    l.contains x = l'.contains y := by
+  cases h1 : l.contains x <;> cases h2 : l'.contains y <;> simp_all
+
+theorem relab_renameSpace (kw : List String) (t : Tabs) (st st' : SM.St) (h : SM.Inv st) (p : Path) (new : String)
+    (hop : st.renameSpace kw p new = .ok st') (hs : slotsFixed t p new = true) :
+    Relab (renameMap p new) t st st' := by
+  obtain ⟨parent, old, rfl, hpid, _, hca, rfl, _⟩ := renameSpace_ok kw st st' h.wf _ new hop
+  obtain ⟨hfree, _, hr, _⟩ := canAdd_space_free h.wf parent new hca
+  unfold slotsFixed at hs
+  rw [renameMap_snoc] at hs ⊢
+  have hinj := swapAt_inj parent old new
+  have hconts : ∀ a q, conts ({ st.mapPaths (SM.swapAt parent old new) with
+      namers := st.namers.map (fun e => (relabel (parent ++ [old]) new e.1, e.2)) } : SM.St) a
+        (SM.swapAt parent old new q) = conts st a q := by
+    intro a q
+    exact cont_mapPaths _ st hinj a q
+  have hmem : ∀ a q n, ({ st.mapPaths (SM.swapAt parent old new) with
+      namers := st.namers.map (fun e => (relabel (parent ++ [old]) new e.1, e.2)) } : SM.St).mem a
+        (SM.swapAt parent old new q) n = st.mem a q n := by
+    intro a q n
+    exact mem_mapPaths _ st hinj a q n
+  refine ⟨hinj, hconts, rfl, ?_, ?_, ?_⟩
+  · intro q
+    show ((st.mapPaths (SM.swapAt parent old new)).find (SM.swapAt parent old new q)).isSome = (st.find q).isSome
+    rw [find_mapPaths _ st hinj]
+    cases st.find q <;> rfl
+  · intro q x
+    unfold nsPlain
+    rw [hmem, hmem, cid_mapPaths _ hinj, rid_mapPaths _ hinj]
+    show (if (st.mem .cells q x).isSome then _ else if st.globals.contains x then _ else
+      if ((st.mapPaths (SM.swapAt parent old new)).childNames (SM.swapAt parent old new q)).contains x then _ else _) = _
+    rw [contains_iff_of_mem_iff (childNames_swap st parent old new q x)]
+    by_cases hA : (st.mem .cells q x).isSome = true
+    · simp only [hA, if_true]
+    by_cases hG : st.globals.contains x = true
+    · simp only [hA, hG, if_true, Bool.false_eq_true, if_false]
+    simp only [hA, hG, Bool.false_eq_true, if_false]
+    by_cases hC : (st.childNames q).contains x = true
+    · -- a child space of `q`: no reference of the name
+      have hR := (h.disj.child q x (by simpa using hC)).2
+      simp only [hC, if_true, hR, Option.isSome_none, Bool.false_eq_true, if_false, ite_self]
+    · by_cases hC' : (st.childNames q).contains (if q = parent then SM.swapName old new x else x) = true
+      · -- `x` is the new name: free in the parent
+        have hR : st.mem .refs q x = none := by
+          by_cases hq : q = parent
+          · subst hq
+            simp only [if_true] at hC'
+            unfold SM.swapName at hC'
+            by_cases h1 : x = old
+            · simp only [h1, if_true] at hC'
+              exact absurd ((mem_childNames st q new).mp (by simpa using hC')) hfree
+            · by_cases h2 : x = new
+              · rw [h2]; exact hr
+              · simp only [h1, h2, if_false] at hC'
+                exact absurd hC' hC
+          · simp only [hq, if_false] at hC'
+            exact absurd hC' hC
+        simp only [hC, hC', if_true, hR, Option.isSome_none, Bool.false_eq_true, if_false]
+      · simp only [hC, hC']
+  · intro e he
+    rw [List.all_eq_true] at hs
+    simpa using hs e he
+
+/-- **an accepted `space.rename` changes no definition the executor sees**: the formula of every cells
+(its source resolved in the namespace of its space), the flags, the value of every reference, the observers
+– for every identity, as `Env`s -/
+theorem envOf_renameSpace (P : Params) (t : Tabs) (st st' : SM.St) (h : SM.Inv st) (p : Path) (new : String)
+    (hop : st.renameSpace P.kw p new = .ok st') (hs : slotsFixed t p new = true) :
+    envOf P (t.mapPaths (renameMap p new)) st' = envOf P t st :=
+  envOf_relabel (relab_renameSpace P.kw t st st' h p new hop hs) P
+
+theorem allocOK_renameSpace (kw : List String) (t : Tabs) (st st' : SM.St) (h : SM.Inv st) (ha : AllocOK t st)
+    (p : Path) (new : String) (hop : st.renameSpace kw p new = .ok st') :
+    AllocOK (t.mapPaths (renameMap p new)) st' := by
+  obtain ⟨parent, old, rfl, hpid, _, hca, rfl, _⟩ := renameSpace_ok kw st st' h.wf _ new hop
+  rw [renameMap_snoc]
+  have hinj := swapAt_inj parent old new
+  have hids : ∀ q', q' ∈ ({ st.mapPaths (SM.swapAt parent old new) with
+      namers := st.namers.map (fun e => (relabel (parent ++ [old]) new e.1, e.2)) } : SM.St).ids →
+      ∃ q ∈ st.ids, SM.swapAt parent old new q = q' := by
+    intro q' hq'
+    exact (mem_ids_mapPaths _ st q').mp hq'
+  have hmem : ∀ a q n, ({ st.mapPaths (SM.swapAt parent old new) with
+      namers := st.namers.map (fun e => (relabel (parent ++ [old]) new e.1, e.2)) } : SM.St).mem a
+        (SM.swapAt parent old new q) n = st.mem a q n := by
+    intro a q n
+    exact mem_mapPaths _ st hinj a q n
+  refine ⟨?_, ?_, ?_, ?_⟩
+  · intro q' n hm
+    obtain ⟨q, _, rfl⟩ := hids q' (mem_ids_of_isSome _ .cells q' n hm)
+    rw [hmem] at hm
+    exact List.mem_map.mpr ⟨(q, n), ha.cells q n hm, rfl⟩
+  · intro q' n hm
+    obtain ⟨q, _, rfl⟩ := hids q' (mem_ids_of_isSome _ .refs q' n hm)
+    rw [hmem] at hm
+    exact List.mem_map.mpr ⟨(q, n), ha.refs q n hm, rfl⟩
+  · intro q' x hq' hx
+    obtain ⟨q, hq, rfl⟩ := hids q' hq'
+    exact List.mem_map.mpr ⟨(q, x), ha.gslots q x hq hx, rfl⟩
+  · intro e he
+    obtain ⟨e0, he0, rfl⟩ := List.mem_map.mp he
+    exact List.mem_map.mpr ⟨e0, ha.slots e0 he0, rfl⟩
 
 end MxModel.Edit
